@@ -16,7 +16,7 @@ var intrinsics = map[string]intrinsicFn{}
 var summaryIntrinsics = map[string]intrinsicFn{}
 
 // estimators whose results only flow to the (nil) gauge in arithmetic harnesses; subject of C32
-var meteringStubRe = regexp.MustCompile(`^github.com/onflow/cadence/common\.(New(Plus|Minus|Mul|Mod|Div|BitwiseOr|BitwiseXor|BitwiseAnd|BitwiseLeftShift|BitwiseRightShift|Negate)BigIntMemoryUsage|NewBigIntsWordSliceOperation)$`)
+var meteringStubRe = regexp.MustCompile(`^github.com/onflow/cadence/common\.(New(Plus|Minus|Mul|Mod|Div|BitwiseOr|BitwiseXor|BitwiseAnd|BitwiseLeftShift|BitwiseRightShift|Negate)BigIntMemoryUsage|NewBigIntsWordSliceOperation|OverEstimateBigIntFromString)$`)
 
 func (ex *Exec) noteStub(name string) {
 	if ex.Stats.Stubs == nil {
